@@ -55,7 +55,7 @@ struct HdrIn {
 };
 
 // the client (or origin) header block: Connection line(s) from the family template, the extension field, then the fixed fields
-static void buildBlock(HdrIn &c, const char *conn1, const char *conn2, const unsigned xlen, const bool reply)
+static void buildBlock(HdrIn &c, const char *conn1, const char *conn2, const char *xname, const bool reply)
 {
     c.k.n = 0;
     c.nconn = 0;
@@ -63,8 +63,7 @@ static void buildBlock(HdrIn &c, const char *conn1, const char *conn2, const uns
     blockPut(c.k, "Connection:");
     c.cs[0] = blockPut(c.k, conn1); c.cn[0] = c.k.n - c.cs[0]; c.nconn = 1;
     blockPut(c.k, "\r\n");
-    static const char nameT[] = "\x02\x02\x02\x02";
-    c.xs = blockPut(c.k, nameT + (4 - xlen)); c.xl = xlen;
+    c.xs = blockPut(c.k, xname); c.xl = c.k.n - c.xs;
     blockPut(c.k, ": ext\r\n");
     blockPut(c.k, "Keep-Alive: timeout=5\r\nTE: trailers\r\nTrailer: X-T\r\nUpgrade: h2c\r\nProxy-Connection: keep-alive\r\n");
     blockPut(c.k, "Proxy-Authenticate: Basic realm=p\r\n");
@@ -104,22 +103,21 @@ static void checkListedAndKept(const HdrIn &c, const HttpHeader &out)
     vf_assert(!(listed(c, "X-Keep") && countName(out, "X-Keep")), "an end-to-end extension field named in Connection is not relayed");
     if (!mentioned(c, "Accept")) vf_assert(countName(out, "Accept") == 1, "guard: an end-to-end field not named in Connection is relayed once");
     if (!mentioned(c, "X-Keep")) vf_assert(countName(out, "X-Keep") == 1, "guard: an end-to-end extension field not named in Connection is relayed once");
-    if (xListed) vf_reach("listed-dropped");
-    else if (xOut) vf_reach("unlisted-kept");
+    reachIf(xListed, "listed-dropped");
+    reachIf(!xListed && xOut, "unlisted-kept");
 }
 
 static const char *const Logins[] = {nullptr, "PASS", "PASSTHRU", "PROXYPASS", "user:pw", "*:pw"};
 
 // allFlags: every Http::StateFlags member and the cache_peer login mode symbolic (used with a concrete Connection value);
 // otherwise a direct connection to the origin with symbolic keepalive/chunked_request (the list families)
-static void request(const char *conn1, const char *conn2, const unsigned xlenMax, const bool allFlags)
+static void request(const char *conn1, const char *conn2, const char *xname, const bool allFlags)
 {
     fwdConfig(1);
     static HdrIn c;
-    const unsigned xlen = (unsigned)vf_concretize(vf_range(1, xlenMax, "xlen"));
-    buildBlock(c, conn1, conn2, xlen, false);
+    buildBlock(c, conn1, conn2, xname, false);
     // Via is rebuilt by Squid itself from the received Via list (HttpHeader::addVia()): "Connection: via" is outside the claim
-    if (xlen == 3) vf_assume(!refEqNoCase(c.k.b + c.xs, (const uint8_t *)"via", 3));
+    if (c.xl == 3) vf_assume(!refEqNoCase(c.k.b + c.xs, (const uint8_t *)"via", 3));
 
     HttpRequest *req = rawRequest(Http::METHOD_POST);
     const int ok = blockParse(c.k, req->header);
@@ -164,17 +162,16 @@ static void request(const char *conn1, const char *conn2, const unsigned xlenMax
                 if (e) vf_assert(!valueIs(e, CLIENT_CRED), "the client's proxy credentials are not sent to an origin server in any field");
         vf_reach("to-origin");
     } else {
-        vf_reach(pa ? "peer-credentials-passed" : "peer-no-credentials");
+        reachIf(pa, "peer-credentials-passed", "peer-no-credentials");
     }
     WITNESS_POINT();
 }
 
-static void reply(const char *conn1, const char *conn2, const unsigned xlenMax)
+static void reply(const char *conn1, const char *conn2, const char *xname)
 {
     fwdConfig(1);
     static HdrIn c;
-    const unsigned xlen = (unsigned)vf_concretize(vf_range(1, xlenMax, "xlen"));
-    buildBlock(c, conn1, conn2, xlen, true);
+    buildBlock(c, conn1, conn2, xname, true);
     HttpHeader h(hoReply);
     const int ok = blockParse(c.k, h);
     vf_assert(ok == 1, "harness: the origin block is a well-formed header block");
@@ -195,33 +192,48 @@ static void reply(const char *conn1, const char *conn2, const unsigned xlenMax)
     WITNESS_POINT();
 }
 
-// ---- families (Connection value templates; \x01 = symbolic value byte)
-// short fully symbolic Connection value, extension name of 1..2 (thorough 1..3) symbolic bytes
-#define ANY T("\x01\x01\x01\x01", "\x01\x01\x01\x01\x01")
-// a standard option first, then a symbolic tail: separators, OWS, empty elements, the extension name
-#define TAIL T("close\x01\x01\x01\x01", "close\x01\x01\x01\x01\x01")
+// ---- families: Connection value template(s) (\x01 = symbolic value byte) and extension field name (\x02 = symbolic tchar)
+#define B1 "\x01"
+#define B2 "\x01\x01"
+#define B3 "\x01\x01\x01"
+#define B4 "\x01\x01\x01\x01"
+// short fully symbolic Connection value; one-byte extension name (thorough: two bytes)
+#define ANY T(B3, B4), T("E", "xE")
+// a standard option first, then a symbolic tail: separator, OWS, empty elements, the extension name in either case
+#define TAIL T("close" B3, "close" B4), T("Xe", "X-e")
 // symbolic head before a standard option
-#define HEAD T("\x01\x01\x01\x01keep-alive", "\x01\x01\x01\x01\x01keep-alive")
-// two elements with symbolic separators around a symbolic middle: " x , y " shapes
-#define MID T("TE\x01\x01\x01\x01,close", "TE\x01\x01\x01\x01\x01,close")
+#define HEAD T(B3 "keep-alive", B4 "keep-alive"), T("Xe", "X-e")
+// symbolic separators/OWS between two concrete elements that name fields, then a symbolic element
+#define MID T("xe" B2 "x-keep" B1, "xe" B3 "x-keep" B1), "xE"
 // a registered end-to-end name listed with symbolic case/neighbours
-#define REG T("\x01" "ccep\x01\x01", "\x01" "cce\x01\x01\x01")
+#define REG T(B1 "ccep" B2, B1 "cce" B3), "Xe"
+// symbolic extension name against a partly symbolic list
+#define NAME T("close,xE" B1, "close,xE" B1 ",k" B1), T("\x02\x02", "\x02\x02")
 // two Connection header fields
-#define TWO1 "close"
-#define TWO2 T("\x01\x01\x01\x01", "\x01\x01\x01\x01\x01")
+#define TWO T(B3, B4), T("Xe", "X-e")
 
-#define XL T(2, 3)
-extern "C" void c04_req_any(void) { request(ANY, nullptr, XL, false); }
-extern "C" void c04_req_tail(void) { request(TAIL, nullptr, XL, false); }
-extern "C" void c04_req_head(void) { request(HEAD, nullptr, XL, false); }
-extern "C" void c04_req_mid(void) { request(MID, nullptr, XL, false); }
-extern "C" void c04_req_reg(void) { request(REG, nullptr, 1, false); }
-extern "C" void c04_req_two(void) { request(TWO1, TWO2, XL, false); }
-// every flag and login mode; Connection value ' x' b ', close' with a 2-byte extension name 'x' n
-extern "C" void c04_req_flags(void) { request(" x\x01, close", nullptr, 2, true); }
-extern "C" void c04_rep_any(void) { reply(ANY, nullptr, XL); }
-extern "C" void c04_rep_tail(void) { reply(TAIL, nullptr, XL); }
-extern "C" void c04_rep_head(void) { reply(HEAD, nullptr, XL); }
-extern "C" void c04_rep_mid(void) { reply(MID, nullptr, XL); }
-extern "C" void c04_rep_reg(void) { reply(REG, nullptr, 1); }
-extern "C" void c04_rep_two(void) { reply(TWO1, TWO2, XL); }
+#define FAM(fn, call) extern "C" void fn(void) { call; }
+#define REQ1_(fn, conn, name) FAM(fn, request(conn, nullptr, name, false))
+#define REP1_(fn, conn, name) FAM(fn, reply(conn, nullptr, name))
+#define REQ2_(fn, conn, name) FAM(fn, request("close", conn, name, false))
+#define REP2_(fn, conn, name) FAM(fn, reply("close", conn, name))
+#define REQ1(fn, ...) REQ1_(fn, __VA_ARGS__)
+#define REP1(fn, ...) REP1_(fn, __VA_ARGS__)
+#define REQ2(fn, ...) REQ2_(fn, __VA_ARGS__)
+#define REP2(fn, ...) REP2_(fn, __VA_ARGS__)
+REQ1(c04_req_any, ANY)
+REQ1(c04_req_tail, TAIL)
+REQ1(c04_req_head, HEAD)
+REQ1(c04_req_mid, MID)
+REQ1(c04_req_reg, REG)
+REQ1(c04_req_name, NAME)
+REQ2(c04_req_two, TWO)
+REP1(c04_rep_any, ANY)
+REP1(c04_rep_tail, TAIL)
+REP1(c04_rep_head, HEAD)
+REP1(c04_rep_mid, MID)
+REP1(c04_rep_reg, REG)
+REP1(c04_rep_name, NAME)
+REP2(c04_rep_two, TWO)
+// every flag and login mode; Connection value ' x' b ', close' with the extension name 'x' n
+extern "C" void c04_req_flags(void) { request(" x" B1 ", close", nullptr, "x\x02", true); }
